@@ -337,7 +337,7 @@ rewrite[R6] `proof.as_ref().len()` => `proof.as_slice().len()`
 rewrite[R4] `for (height, h) in proof.as_ref().iter().enumerate() {` => `let verif_s = proof.as_slice(); let mut verif_k: usize = 0; while verif_k < verif_s.len() { let height = verif_k; let h = &verif_s[verif_k]; verif_k += 1;`
 rewrite[R6] `Some(node.into())` => `Some(node)`
 ensures
-        // [C15.last_leaf_variant_exact]
+        // [C15.last_leaf_variant_exact C14.last_slice_count_needs_a_last_leaf_proof]
         r is Some <==> (proof@.len() <= 32 && spec_right_siblings_empty(index as nat, proof@, 0) && (index as nat) < pow2(proof@.len())),
         r matches Some(x) ==> x == spec_derive(hash, index as nat, proof@),
 loop 0
@@ -377,7 +377,7 @@ before `proof.as_slice().len() <= EMPTY_ROOTS.len()`
 props C15 C14
 ret r
 ensures
-        // [C15.last_leaf_variant_exact]
+        // [C15.last_leaf_variant_exact C14.last_slice_count_needs_a_last_leaf_proof]
         r == (proof@.len() <= 32 && (index as nat) < pow2(proof@.len()) && spec_right_siblings_empty(index as nat, proof@, 0)
               && spec_derive(hash, index as nat, proof@) == *root),
 closure 0
